@@ -21,67 +21,74 @@ def run(ctx):
     ids = list(MENU)
     cases = generate(ctx, ids, 3 if ctx.quick else 4, ["", "Z"], [[], [["z0", "a"]]], "C14")
     rnd = random.Random(ctx.seed)
-    R = 6 if ctx.quick else 16
-    jobs, meta = [], []
-    for ci, c in enumerate(cases):
-        mixed = any(len(f["types"]) > 1 for f in c["g"])
-        orders = list(itertools.permutations(sorted(c["sel"])))
-        if ctx.quick and len(orders) > 3:
-            orders = rnd.sample(orders, 3)
-        for o in orders:
-            for rep in range(R if mixed else 1):
-                calls = scenario_calls(list(o), c["prefix"], c["common"]) + [{"op": "text_encode", "reg": "r"}]
-                jobs.append({"id": len(jobs), "calls": calls})
-                meta.append((ci, o, mixed))
-    res = run_api(ctx, exe, jobs, "gather", nproc=12)
+    R = 6 if ctx.quick else 12
     nok = 0
     types_seen = {}
     nmixed = 0
-    for j, (ci, o, mixed) in zip(jobs, meta):
-        c = cases[ci]
-        rs = res[j["id"]]
-        rp = {"calls": j["calls"], "case": c}
-        pre = "mixed-kinds-under-one-name" if mixed else "single-kind"
-        nmixed += 1 if mixed else 0
-        bad = [x for x in rs[:-1] if "ok" not in x]
-        if bad:
-            ctx.violation(pre + ":call-failed", "a call failed: %s" % bad[0], rp)
-            continue
-        fams = rs[-2]["ok"]
-        ok = True
-        exp_by_name = {f["name"]: f for f in c["g"]}
-        for f in fams:
-            want = PAYLOAD[f["type"]]
-            for m in f["metrics"]:
-                if "present" in m and m["present"] != [want]:
-                    ok = False
-                    ctx.violation(pre + ":payload", "registry %s order %s: family %s declared %s holds a sample %s carrying %s" % (sorted(c["sel"]), list(o), f["name"], f["type"], m["labels"], m["present"]), rp)
-                    break
-            prev = types_seen.setdefault((ci, f["name"]), (f["type"], o))
-            if prev[0] != f["type"]:
-                ok = False
-                ctx.violation(pre + ":type-varies", "family %s is %s for registration order %s and %s for %s (same content, fresh hash seeds)" % (f["name"], prev[0], list(prev[1]), f["type"], list(o)), rp)
-        # the encoder prints each sample's real value
-        if "ok" in rs[-1]:
-            tv = text_values(rs[-1]["ok"]["hex"])
-            for e in c["g"]:
-                for s in e["samples"]:
-                    if s["type"] == "HISTOGRAM":
-                        continue
-                    lab = sorted(s["labels"] + s["common"], key=lambda p: p[0])
-                    cands = [v for h, v in tv.items() if h.split("{")[0] == e["name"] and all(('%s="%s"' % (n, x)) in h for n, x in lab)]
-                    if str(s["v"]) not in cands and ("%s" % float(s["v"])) not in cands:
+    njobs = 0
+    for off, part in chunks(list(enumerate(cases)), 400):
+        jobs, meta = [], []
+        for ci, c in part:
+            mixed = any(len(f["types"]) > 1 for f in c["g"])
+            orders = list(itertools.permutations(sorted(c["sel"])))
+            cap = 3 if ctx.quick else 6
+            if len(orders) > cap:
+                orders = rnd.sample(orders, cap)
+            for o in orders:
+                for rep in range(R if mixed else 1):
+                    calls = scenario_calls(list(o), c["prefix"], c["common"]) + [{"op": "text_encode", "reg": "r"}]
+                    jobs.append({"id": len(jobs), "calls": calls})
+                    meta.append((ci, o, mixed))
+        res = run_api(ctx, exe, jobs, "gather%d" % off, nproc=12)
+        njobs += len(jobs)
+        for j, (ci, o, mixed) in zip(jobs, meta):
+            c = cases[ci]
+            rs = res[j["id"]]
+            rp = {"calls": j["calls"], "case": c}
+            pre = "mixed-kinds-under-one-name" if mixed else "single-kind"
+            nmixed += 1 if mixed else 0
+            bad = [x for x in rs[:-1] if "ok" not in x]
+            if bad:
+                ctx.violation(pre + ":call-failed", "a call failed: %s" % bad[0], rp)
+                continue
+            fams = rs[-2]["ok"]
+            ok = True
+            for f in fams:
+                want = PAYLOAD[f["type"]]
+                for m in f["metrics"]:
+                    if "present" in m and m["present"] != [want]:
                         ok = False
-                        ctx.violation(pre + ":printed-value", "text exposition of registry %s (order %s): sample %s%s has value %s but is printed as %s" % (sorted(c["sel"]), list(o), e["name"], lab, s["v"], cands), rp)
+                        ctx.violation(pre + ":payload", "registry %s order %s: family %s declared %s holds a sample %s carrying %s" % (sorted(c["sel"]), list(o), f["name"], f["type"], m["labels"], m["present"]), rp)
                         break
-        elif "err" in rs[-1] and any("UNTYPED" in f["types"] for f in c["g"]):
-            pass      # the text format has no rendering for an untyped family: refusing it is the documented outcome (C17)
-        elif "panic" in rs[-1] or "err" in rs[-1]:
-            ok = False
-            ctx.violation(pre + ":encode-failed", "text encoder failed on gathered families: %s" % rs[-1], rp)
-        nok += 1 if ok else 0
+                prev = types_seen.setdefault((ci, f["name"]), (f["type"], o))
+                if prev[0] != f["type"]:
+                    ok = False
+                    ctx.violation(pre + ":type-varies", "family %s is %s for registration order %s and %s for %s (same content, fresh hash seeds)" % (f["name"], prev[0], list(prev[1]), f["type"], list(o)), rp)
+            # the encoder prints each sample's real value
+            if "ok" in rs[-1]:
+                tv = text_values(rs[-1]["ok"]["hex"])
+                for e in c["g"]:
+                    for s_ in e["samples"]:
+                        if s_["type"] == "HISTOGRAM":
+                            continue
+                        lab = sorted(s_["labels"] + s_["common"], key=lambda p: p[0])
+                        cands = [v for h, v in tv.items() if h.split("{")[0] == e["name"] and all(('%s="%s"' % (n, x)) in h for n, x in lab)]
+                        if str(s_["v"]) not in cands and ("%s" % float(s_["v"])) not in cands:
+                            ok = False
+                            ctx.violation(pre + ":printed-value", "text exposition of registry %s (order %s): sample %s%s has value %s but is printed as %s" % (sorted(c["sel"]), list(o), e["name"], lab, s_["v"], cands), rp)
+                            break
+            elif "err" in rs[-1] and any("UNTYPED" in f["types"] for f in c["g"]):
+                pass      # the text format has no rendering for an untyped family: refusing it is the documented outcome (C17)
+            elif "panic" in rs[-1] or "err" in rs[-1]:
+                ok = False
+                ctx.violation(pre + ":encode-failed", "text encoder failed on gathered families: %s" % rs[-1], rp)
+            nok += 1 if ok else 0
+        del res, jobs
+        for ci, _ in part:
+            for k in [k for k in types_seen if k[0] == ci]:
+                types_seen.pop(k, None)
     ctx.cov.update({
-        "traces_validated_against_impl": nok, "configurations": len(cases), "gathers": len(jobs), "gathers_mixed_kind_configurations": nmixed, "gathers_conforming": nok,
+        "traces_validated_against_impl": nok, "configurations": len(cases), "gathers": njobs, "gathers_mixed_kind_configurations": nmixed, "gathers_conforming": nok,
         "samples": [cases[len(cases) // 3]],
         "rule": "GatherGen configurations incl. a gauge sharing name/help with counters (different constant-label values); every sample's populated payload must match the family's declared type, "
                 "the type must not vary over registration orders / hash seeds, the text encoder must print every sample's real value",
